@@ -55,6 +55,7 @@ type Verifier struct {
 	pureCalls        map[string]bool
 	symDepth         int
 	opaqueCalls      bool
+	nullableResults  bool // option nullable-results
 	opaqueWrites     map[string][]int // option opaque-writes F:k: the opaque callee F overwrites what its k-th argument (receiver = 0) points to
 	structSlices     bool // option struct-slices: slices of scalar-leaf aggregates are modelled leaf by leaf (SoAV)
 	escaped          map[*Object]bool
@@ -716,6 +717,13 @@ func (v *Verifier) emit(o *Obligation) {
 func (fr *Frame) anchor(st *State, kind, target string, idx int) {
 	if fr.c == nil || len(fr.c.Cuts) == 0 || fr.v.scratch {
 		return
+	}
+	if kind == "call" {
+		// the result of the latest call of each callee stays visible to later cuts as resultof_<callee>
+		if r, ok := st.srcVar["callresult"]; ok {
+			st.srcVar["resultof_"+target] = r
+			st.srcAdr["resultof_"+target] = false
+		}
 	}
 	key := kind + ":" + target
 	if kind == "store" {
